@@ -449,31 +449,48 @@ func run(c Case) error {
 			}
 		}
 	}
-	// (3) delivery: at light load nothing is lost; around a replacement only what was sent inside the window may be
+	// (3) delivery: at light load nothing is lost; around a replacement only what was sent inside the window may be.
+	// Identical payloads are interchangeable, so the count that MUST have arrived is compared, per payload.
 	const window = 1500 * time.Millisecond
-	for i, sd := range c.Sends {
-		if !limitLightLoad(c) {
-			break
+	if limitLightLoad(c) {
+		mustProxy := make([]map[string]int, c.NProxies)
+		for pi := range mustProxy {
+			mustProxy[pi] = map[string]int{}
 		}
-		if c.CutAt >= 0 {
-			// the work connection is being re-established from the cut until `window` later; a datagram whose
-			// reply would travel inside that window may be lost too
-			if sentAt[i].After(cutTime.Add(-200*time.Millisecond)) && sentAt[i].Before(cutTime.Add(window)) {
+		mustUser := make([]map[string]int, c.NUsers)
+		for u := range mustUser {
+			mustUser[u] = map[string]int{}
+		}
+		first := map[string]int{}
+		for i, sd := range c.Sends {
+			p := payload(i, sd)
+			inWindow := c.CutAt >= 0 && sentAt[i].After(cutTime.Add(-200*time.Millisecond)) && sentAt[i].Before(cutTime.Add(window))
+			if inWindow {
+				continue // the work connection is being re-established: this datagram or its reply may be lost
+			}
+			mustProxy[sd.Proxy][string(p)]++
+			if _, ok := first[string(p)]; !ok {
+				first[string(p)] = i
+			}
+			if c.CutAt >= 0 && sentAt[i].Before(cutTime) {
+				continue // replies to the per-user sockets of the old work connection are not carried over
+			}
+			mustUser[sd.User][string(transform(p, sd.Proxy))]++
+		}
+		for i, sd := range c.Sends {
+			p := payload(i, sd)
+			if first[string(p)] != i {
 				continue
 			}
+			if g, m := gotProxy[sd.Proxy][string(p)], mustProxy[sd.Proxy][string(p)]; g < m {
+				return fmt.Errorf("light load (gaps >= 1 ms, %d datagrams): datagram #%d (%s) of user %d to proxy %d: %d copies were sent outside any re-establishment window, the backend received %d%s %s", len(c.Sends), i, describe(p), sd.User, sd.Proxy, m, g, cutNote(c, sentAt[i], cutTime), brief(c))
+			}
 		}
-		p := payload(i, sd)
-		if gotProxy[sd.Proxy][string(p)] < sentProxy[sd.Proxy][string(p)] {
-			return fmt.Errorf("light load (gaps >= 1 ms, %d datagrams): datagram #%d (%s) of user %d never reached backend %d (backend got %d of %d copies)%s %s", len(c.Sends), i, describe(p), sd.User, sd.Proxy,
-				gotProxy[sd.Proxy][string(p)], sentProxy[sd.Proxy][string(p)], cutNote(c, sentAt[i], cutTime), brief(c))
-		}
-		r := transform(p, sd.Proxy)
-		if c.CutAt >= 0 && sentAt[i].Before(cutTime) {
-			continue // replies to the per-user sockets of the old work connection are not carried over
-		}
-		if gotUser[sd.User][string(r)] < sentUser[sd.User][string(r)] {
-			return fmt.Errorf("light load (gaps >= 1 ms, %d datagrams): the reply to datagram #%d (%s) never reached user %d (got %d of %d)%s %s", len(c.Sends), i, describe(p), sd.User,
-				gotUser[sd.User][string(r)], sentUser[sd.User][string(r)], cutNote(c, sentAt[i], cutTime), brief(c))
+		for i, sd := range c.Sends {
+			r := transform(payload(i, sd), sd.Proxy)
+			if g, m := gotUser[sd.User][string(r)], mustUser[sd.User][string(r)]; g < m {
+				return fmt.Errorf("light load (gaps >= 1 ms, %d datagrams): replies to datagram #%d (%s) of user %d: %d were due, %d arrived%s %s", len(c.Sends), i, describe(payload(i, sd)), sd.User, m, g, cutNote(c, sentAt[i], cutTime), brief(c))
+			}
 		}
 	}
 	_ = bytes.Equal
